@@ -16,6 +16,9 @@
                                             under its series' ref - for any damage of any files
      C04_reader_prefix           (full)     a damaged segment is replayed as a prefix of its records,
                                             everything before the damage included
+     C04_reader_keeps_before_damage (full)  every record that ends before the damage is delivered
+     C04_open_replays_prefixes   (partial)  a successful open replays checkpoint + WAL + WBL as delivered,
+                                            except that a WAL error skips the WBL
      C04_failed_open_cases       (partial)  a failed open leaves blocks, checkpoint and WBL alone, and
                                             the WAL too unless the checkpoint was unreadable
    and four parts of the statement are FALSE of the model (and of the code, see notes/C04.md):
@@ -96,6 +99,50 @@ Example C04_reader_prefix_nonvacuous :
   (* one of the three unused header bits flipped: nothing happens *)
   read_seg (ex_wal (DByte 44 33)) = (seg_contents (ex_wal DNone), RClean).
 Proof. vm_compute. repeat split; reflexivity. Qed.
+
+(* ------------------------------------------------------------------ what a successful open replays *)
+(* every record of a segment that ends before the damaged byte / the cut is delivered, whatever
+   the damage and the oracle are *)
+Theorem C04_reader_keeps_before_damage :
+  forall s m, (m <= length (sg_recs s))%nat ->
+  (forall j r, (j < m)%nat -> nth_error (sg_recs s) j = Some r -> dmg_lt (sg_dmg s) (r_end r) = false) ->
+  exists out' st, read_seg s = (firstn m (seg_contents s) ++ out', st).
+Proof.
+  intros s m Hm Hb. unfold read_seg, seg_contents. rewrite firstn_map.
+  apply rd_before; auto.
+Qed.
+
+(* Full statement (FALSE because of the third case, see C04_wal_repair_skips_wbl_refuted): a
+   successful open yields the head obtained by replaying what each log's readers deliver
+   (checkpoint, WAL, then WBL) over the head chunks that iterate.
+   Proved: the checkpoint is read completely and cleanly, and exactly one of three things
+   happened - (KNone) WAL and WBL read cleanly and are both replayed, the WAL directory only gains
+   the fresh segment; (KWbl) the WAL is replayed completely, the WBL up to its corrupt segment's
+   last good record, the WAL directory only gains the fresh segment; (KWal) the WAL is replayed up
+   to its corrupt segment's last good record and the WBL is NOT replayed at all (its directory
+   only gains the fresh segment).  By C04_reader_prefix each "delivered" list is a prefix of the
+   segment's records, and replay ignores the empty records (replay_wal_strip / replay_wbl_strip). *)
+Theorem C04_open_replays_prefixes_partial :
+  forall d h d' k cr cl, open d = OOk h d' k cr cl ->
+  exists cs files crecs wrecs wst,
+    load_chunks (d_chunks d) = ChOk cs files cr /\
+    read_log (ckpt_recs d) = (crecs, LClean) /\ read_log (d_wal d) = (wrecs, wst) /\
+    let rp := replay cs (d_minvalid d) (d_cap d) (last_mmref cs) (crecs ++ wrecs) in
+    ((k = KNone /\ wst = LClean /\ exists brecs, read_log (d_wbl d) = (brecs, LClean) /\
+        h = gc (rp brecs) /\ d_wal d' = new_segment (d_wal d)) \/
+     (k = KWbl /\ wst = LClean /\ exists brecs idx kept, read_log (d_wbl d) = (brecs, LCorrupt idx kept) /\
+        h = gc (rp brecs) /\ d_wal d' = new_segment (d_wal d)) \/
+     (k = KWal /\ exists idx kept, wst = LCorrupt idx kept /\ h = gc (rp []) /\
+        d_wbl d' = (if 0 <? d_cap d then new_segment (d_wbl d) else d_wbl d))).
+Proof. exact open_ok_shape. Qed.
+
+Example C04_open_replays_nonvacuous :
+  (* a cut in the middle of the WBL's last record: WAL in full, WBL up to the cut, WBL repaired *)
+  exists h d', open (mkD [] min_int64 None [(0, ex_wal DNone)]
+                         [(0, mkSeg 32768 (sg_recs ex_wbl) (DTrunc 60) no_or)] [] 4) = OOk h d' KWbl false false /\
+    contents (ex_disk DNone) h = [(10, 100, 1); (10, 50, 3); (20, 200, 2)] /\
+    d_wbl d' = [(0, clean_seg [RMarkers [(1, 0)]; RSamples [(1, 50, 3)]; RMarkers [(2, 0)]]); (1, clean_seg [])].
+Proof. eexists; eexists; vm_compute; repeat split; reflexivity. Qed.
 
 (* ------------------------------------------------------------------ a failed open *)
 (* Full statement (FALSE, see C04_checkpoint_damage_refuted): open d = OErr d' -> d' = d up to
